@@ -514,11 +514,16 @@ Proof.
     + rewrite upd2_nth_other by assumption. reflexivity.
 Qed.
 
-(* the view the database-level invariant looks at *)
-Inductive dview := DT (owner : option oid) (names : list pystr) | DChild | DOther (ob : obj).
+(* the view the database-level invariant looks at: owner and names of tables, class and owner of the other
+   top-level objects, the database values; nothing of columns, indexes, notes, enum items, expressions *)
+Inductive dview := DT (owner : option oid) (names : list pystr) | DM (k : kind) (owner : option oid) | DD (db : database) | DChild.
 Definition dview_of (ob : obj) : dview :=
   match ob with
-  | OTable tb => DT (t_database tb) (names_of tb) | OColumn _ | OIndex _ => DChild | other => DOther other
+  | OTable tb => DT (t_database tb) (names_of tb)
+  | ODatabase db => DD db
+  | OReference _ | OEnum _ | OSticky _ | OProject _ | OGroup _ =>
+      match okind ob with Some k => DM k (oowner ob) | None => DChild end
+  | _ => DChild
   end.
 Definition same_dview (h h' : heap) : Prop := forall x, option_map dview_of (nth_error h' x) = option_map dview_of (nth_error h x).
 
@@ -531,19 +536,25 @@ Proof.
 Qed.
 Lemma same_dview_sym h h' : same_dview h h' -> same_dview h' h.
 Proof. intros H x. symmetry. apply H. Qed.
-Lemma same_dview_other h h' x ob : same_dview h h' -> nth_error h x = Some ob -> is_tab ob = false -> cview_of ob = VO ->
-  nth_error h' x = Some ob.
+Lemma same_dview_db h h' d db : same_dview h h' -> h_database h d = Some db -> h_database h' d = Some db.
 Proof.
-  intros S Hx A B. specialize (S x). rewrite Hx in S. cbn in S. destruct (nth_error h' x) as [ob'|]; [|discriminate S].
-  cbn in S. inversion S as [S']. destruct ob; try discriminate A; try discriminate B; destruct ob'; try discriminate S'; cbn in S'; inversion S'; reflexivity.
+  intros S Hd. apply h_database_nth in Hd. specialize (S d). rewrite Hd in S. cbn in S.
+  destruct (nth_error h' d) as [ob|] eqn:E; [|discriminate S]. cbn in S. inversion S as [S'].
+  unfold h_database. rewrite E. destruct ob; try discriminate S'. cbn in S'. inversion S'. reflexivity.
+Qed.
+Lemma same_dview_member h h' d k o : same_dview h h' -> k <> KTable -> member h d k o -> member h' d k o.
+Proof.
+  intros S Nk (ob & A & B & C). specialize (S o). rewrite A in S. cbn in S.
+  destruct (nth_error h' o) as [ob'|] eqn:E; [|discriminate S]. cbn in S. inversion S as [S'].
+  exists ob'. split; [exact E|].
+  destruct ob; try discriminate B; cbn in B; inversion B; subst k; try congruence;
+    destruct ob'; try discriminate S'; cbn in S'; inversion S'; cbn in *; split; congruence.
 Qed.
 
 Theorem InvDB_view h h' d db : same_dview h h' -> InvDB h d db -> InvDB h' d db.
 Proof.
   intros S [[Idb Ind Ik Ig If Ib] IM IN]. pose proof (same_dview_sym _ _ S) as S'.
-  assert (Hdb : h_database h' d = Some db).
-  { pose proof (same_dview_other h h' d (ODatabase db) S (h_database_nth _ _ _ Idb) eq_refl eq_refl) as E.
-    unfold h_database. rewrite E. reflexivity. }
+  assert (Hdb : h_database h' d = Some db) by (eapply same_dview_db; eauto).
   split; [split|..]; auto.
   - intros t tb Ht. destruct (same_dview_table _ _ _ _ S Ht) as (tb0 & Ht0 & _ & En). rewrite <- En. eapply Ig; eauto.
   - intros t Hin. destruct (If t Hin) as (tb & Ht & Hown & Hk).
@@ -551,17 +562,11 @@ Proof.
     intros k Hkin. apply Hk. rewrite <- En. exact Hkin.
   - intros k t Hg. destruct (Ib k t Hg) as (Hin & tb & Ht & Hk).
     destruct (same_dview_table _ _ _ _ S' Ht) as (tb' & Ht' & Eo & En). split; [exact Hin|]. exists tb'. split; [exact Ht'|]. rewrite En. exact Hk.
-  - intros k o Hin. destruct (IM k o Hin) as (ob & A & B & C).
-    destruct ob; try discriminate B.
-    + (* a table member: owner is in the view *)
-      assert (Ht : h_table h o = Some t) by (unfold h_table; rewrite A; reflexivity).
+  - intros k o Hin. destruct (kind_eq_dec k KTable) as [->|Nk].
+    + destruct (If o Hin) as (tb & Ht & Hown & _).
       destruct (same_dview_table _ _ _ _ S' Ht) as (tb' & Ht' & Eo & En).
-      exists (OTable tb'). split; [apply h_table_nth; exact Ht'|]. split; [exact B|]. cbn in *. congruence.
-    + exists (OReference r). split; [|auto]. eapply same_dview_other; eauto.
-    + exists (OEnum e). split; [|auto]. eapply same_dview_other; eauto.
-    + exists (OSticky s). split; [|auto]. eapply same_dview_other; eauto.
-    + exists (OProject p). split; [|auto]. eapply same_dview_other; eauto.
-    + exists (OGroup g). split; [|auto]. eapply same_dview_other; eauto.
+      exists (OTable tb'). split; [apply h_table_nth; exact Ht'|]. split; [reflexivity|]. cbn. congruence.
+    + eapply same_dview_member; eauto.
 Qed.
 
 (* a table-level step keeps owner and names of every table and every other top-level object *)
